@@ -67,6 +67,7 @@ type GhostDecl struct {
 
 type SpecFunc struct {
 	Opaque bool // predicate: applied as an uninterpreted function with a defining axiom
+	Result *Expr // declared result type (opaquefunc name(..) : T = body), needed for recursive ones
 	Lazy   bool // opaquefunc: uninterpreted function (any result sort), never unfolded when assumed; a goal offers its one-level unfolding as alternative
 	Name   string
 	Params []QVar
@@ -346,6 +347,15 @@ func (sp *Specs) loadSpecFile(path string) error {
 			head := strings.TrimSpace(rest[:eqi])
 			// careful: '=' may be part of '==' in body only; head has none
 			body := strings.TrimSpace(rest[eqi+1:])
+			var resType *Expr
+			if ci := strings.LastIndex(head, ") :"); ci >= 0 {
+				rt, err := parseTypeExpr(strings.TrimSpace(head[ci+3:]))
+				if err != nil {
+					return errf("%v", err)
+				}
+				resType = rt
+				head = strings.TrimSpace(head[:ci+1])
+			}
 			pi := strings.Index(head, "(")
 			if pi < 0 || !strings.HasSuffix(head, ")") {
 				return errf("specfunc head")
@@ -370,7 +380,7 @@ func (sp *Specs) loadSpecFile(path string) error {
 			if err != nil {
 				return errf("%v", err)
 			}
-			sp.SpecFuncs[name] = &SpecFunc{Name: name, Params: params, Body: be, Pkg: pkg, Opaque: w == "predicate" || w == "opaquefunc", Lazy: w == "opaquefunc"}
+			sp.SpecFuncs[name] = &SpecFunc{Name: name, Params: params, Body: be, Pkg: pkg, Opaque: w == "predicate" || w == "opaquefunc", Lazy: w == "opaquefunc", Result: resType}
 		case "lemma":
 			sp.Lemmas = append(sp.Lemmas, rest)
 		default:
